@@ -960,13 +960,13 @@ func (m *Manager) recoverFromWAL() error {
 		}
 	}
 
-	// Add recovered memtables to the pool
+	// Add recovered memtables to the pool in log order. SetActiveMemTable
+	// moves the previously active table to the pool's immutable list, so
+	// reads and iterators see every recovered table, not only the last one.
 	for i, memTable := range memTables {
-		if i == len(memTables)-1 {
-			// The last memtable becomes the active one
-			m.memTablePool.SetActiveMemTable(memTable)
-		} else {
-			// Previous memtables become immutable
+		m.memTablePool.SetActiveMemTable(memTable)
+		if i < len(memTables)-1 {
+			// Previous memtables become immutable and are queued for flushing
 			memTable.SetImmutable()
 			m.immutableMTs = append(m.immutableMTs, memTable)
 		}
